@@ -143,6 +143,13 @@ def judge(case, part):
             interesting = True
     if interesting:
         part.nontrivial += 1
+    # the same field object sees every cell again (reverse order): verdicts must not depend on what it validated before
+    for cell in reversed(cells):
+        again, _ = observe_direct(field, cell, errors)
+        part.transitions += 1
+        part.validated += 1
+        if again != direct[cell]:
+            part.fail(tag % "verdict-changes-when-the-cell-is-validated-again", {"decl": case["decl"], "cells": [cell, cell]}, direct[cell], again)
     if decl["fmt"] in ("delimited", "fixed") and not case.get("no_cid"):
         try:
             usable, verdicts = observe_via_cid(decl, cells)
